@@ -45,8 +45,30 @@ func addVal(id int, v interface{}, cls int, ty bool) int {
 	return id
 }
 
+var gValCache = map[int]string{}
+var gKeyCache = map[string]string{}
+
+// gKey prints a map key as a Gallina `str` (memoised: the same few keys recur in every Discover output)
+func gKey(k string) string {
+	if s, ok := gKeyCache[k]; ok {
+		return s
+	}
+	s := lib.GStr(k)
+	gKeyCache[k] = s
+	return s
+}
+
 // gVal prints a value of the table as a Gallina `val`.
 func gVal(id int) string {
+	if s, ok := gValCache[id]; ok {
+		return s
+	}
+	s := gVal0(id)
+	gValCache[id] = s
+	return s
+}
+
+func gVal0(id int) string {
 	vi, ok := vtable[id]
 	if !ok {
 		return fmt.Sprintf("(mkV %d None false)", 999999)
@@ -253,7 +275,7 @@ var staticEntries []staticEntry
 var tsetDecls = []struct{ name, body string }{
 	{"Foo", `Zed => Integer[1,2], Car => String, Bus => Object[attributes => {a => Integer}]`},
 	{"Foo::Bar", `Car => Integer[3,4], A => String[1]`},
-	{"A", `B => Integer[5,6], a => Integer[7,8]`},
+	{"A", `B => Integer[5,6], Aa => Integer[7,8]`},
 }
 
 func setupUniverse(c px.Context) {
@@ -446,7 +468,7 @@ func (w *world) apply(o opT) (res string) {
 		w.with(o.L, func(c px.Context) { found = l.Discover(c, o.P.impl()) })
 		ks := make([]string, len(found))
 		for i, tn := range found {
-			ks[i] = lib.GStr(tn.MapKey())
+			ks[i] = gKey(tn.MapKey())
 		}
 		return "RNames " + lib.GList(ks, "str")
 	}
